@@ -129,6 +129,16 @@ func (g *g) expr(depth int) string {
 	}
 	switch g.t.Draw(n) {
 	case 0:
+		switch g.t.Draw(6) {
+		case 0:
+			return g.q() + "." + g.pick(exported) // pkg.Foo.Bar: Sel of a selector whose X is itself a selector
+		case 1:
+			return fmt.Sprintf("%s().%s", g.q(), g.pick(exported)) // f().x
+		case 2:
+			return fmt.Sprintf("%s.%s.%s", g.pick(locals), g.pick(locals), g.pick(exported)) // a.b.C on locals
+		case 3:
+			return fmt.Sprintf("%s[%d].%s", g.q(), g.t.Draw(4), g.pick(exported))
+		}
 		return g.q()
 	case 1:
 		return g.pick(locals)
